@@ -399,6 +399,9 @@ def c20(res, tier, rng, wd):
         + e2.gen_c04(rng)[:: (10 if thorough else 30)]
     run_e2(res, "C20", e2.with_decode_variants(rng, cbase, positions=None if thorough else 3, all_levels=thorough), wd, "c20client")
     run_e4(res, "C20", e4.gen_c20_server(rng, thorough), wd, "c20server")
+    # level changes while the serial tasks wait to re-open their port must not move the instant of the next attempt
+    run_rtu_task(res, "C20", e1.gen_rtu_task_c14(rng, thorough)[:: (1 if thorough else 3)], wd, "c20rtuserver")
+    run_e2(res, "C20", e2.gen_serial_c14(rng, thorough)[:: (1 if thorough else 3)], wd, "c20serialclient")
     res.assumptions = E1_ASSUME + ["a tracing subscriber at INFO is installed so the Display/Loggable re-parsing code runs",
                                    "server role in this engine; client role is exercised by the E2 part of this check"]
     return res.finish(rule="every base script (lattice, random sequences, chunked streams) at the lowest and highest decode level "
